@@ -399,7 +399,15 @@ impl<'a, R: RealNumberInternalTrait> Interpreter<'a, R> {
                 R::from(number_literal.parse::<f64>().unwrap()).unwrap(),
             )),
             // TODO: apply gcd here.
-            Primitive::Rational(a, b) => Value::Number(Number::Rational(*a, *b as i32)),
+            Primitive::Rational(a, b) => {
+                if *b > i32::MAX as u32 {
+                    return error!(LogicError::Extension(format!(
+                        "denominator of {}/{} is out of range",
+                        a, b
+                    )));
+                }
+                Value::Number(Number::Rational(*a, *b as i32))
+            }
         })
     }
 
